@@ -6,7 +6,7 @@ LEAN_MODULE = "IsobarV.Props.C05"
 THEOREMS = ["IsobarV.C05." + t for t in (
     "schedTime_unquantized", "schedTime_spec", "schedTime_on_grid", "start_fires_at", "first_fire_tick",
     "update_semantics", "start_semantics", "last_update_wins", "fireActions_queue", "applyStarts_none",
-    "keeps_old_stream_until_due", "applyStarts_last")]
+    "keeps_old_stream_until_due", "applyStarts_last", "callback_runs_ops", "callback_update_time")]
 RULE = ("(a) random histories with quantize/delay on schedule and update (explicit, timeline defaults, device latency), calls "
         "between ticks and from inside action callbacks, several updates before a tick; real Timeline vs Lean model; "
         "(b) direct grid oracle: schedule at call tick n with quantize qz / delay dl and compare the tick of the first note-on "
